@@ -8,6 +8,8 @@
 (*   legacy {kind}            lput {k, x}  (record placed by the harness's own   *)
 (*   open {h, kind, out, keys}             legacy encoder, or a genuine one)    *)
 (*   put {k, x, out}          get {h, k, out, x}                                *)
+(*   remove           (the file is removed; what follows happens at the SAME    *)
+(*                     path in the same process; h = "f" = a fresh process)     *)
 (*   scribble {h, k}  (the harness edited, in place, the object the last get    *)
 (*                     of k through h returned; a later get must not show it)   *)
 (* Every event must be a step of LibCodec with Deviations = {}, and what a get *)
@@ -38,14 +40,15 @@ TGet    == /\ Ev.ev = "get" /\ Get(Ev.h, Ev.k)
            /\ Holds(Same(written[Ev.k], Ev.x))                             \* C01
 
 TScribble == /\ Ev.ev = "scribble" /\ Scribble(Ev.h, Ev.k)                \* the harness edited the object it was handed
+TRemove == /\ Ev.ev = "remove" /\ Remove                                  \* the harness removed the file; the path is reused
 Step == /\ ti <= NT /\ l <= Len(Tr)
-        /\ (TLegacy \/ TLPut \/ TOpen \/ TPut \/ TGet \/ TScribble)
+        /\ (TLegacy \/ TLPut \/ TOpen \/ TPut \/ TGet \/ TScribble \/ TRemove)
         /\ l' = l + 1 /\ ti' = ti
 
 Reset == /\ file' = [exists |-> FALSE, magic |-> "none", kind |-> "none", recs |-> NoRecs]
-         /\ hs' = [h \in {"w", "r"} |-> [made |-> FALSE, codec |-> 0]]
-         /\ written' = NoRecs
-         /\ cache' = [h \in {"w", "r"} |-> NoRecs]
+         /\ hs' = [h \in Handles |-> [made |-> FALSE, codec |-> 0]]
+         /\ written' = NoRecs /\ seen' = 0
+         /\ cache' = [h \in Handles |-> NoRecs]
          /\ last' = [act |-> "init", out |-> "ok"]
 NextTrace == ti' = ti + 1 /\ l' = 1 /\ Reset
 Finish == /\ ti <= NT /\ l = Len(Tr) + 1
@@ -59,5 +62,6 @@ TraceNext == Step \/ Finish \/ Stuck
 TraceSpec == TraceInit /\ [][TraceNext]_tvars
 Pool0 == {}
 Keys0 == {}
+H3 == {"w", "r", "f"}
 DevNone == {}
 =============================================================================
